@@ -324,7 +324,23 @@ def stepCanister (d : DState) (ws : List String) : DState × String :=
     (d, showBalance (s.getBalance (parseAddrArg tok) ((optNat c).getD 0)))
   | ["q", "headers", a, b], some s =>
     if (s.guard (envOf d) s.network true).isSome then (d, "trap") else
-    (d, showHeaders (s.getBlockHeaders Btc.Gen.maxBlockHeadersPerResponse a.toNat! (optNat b)))
+    -- specification (C07): one header per height of the full best chain (stable chain ++ heaviest branch)
+    let full := d.ghost.map (·.header) ++ (Spec.bestPath CBlock.diff s.unstable.tree).map (·.blk.header)
+    let tip := full.length - 1
+    let start := a.toNat!
+    let spec : String :=
+      if start > tip then s!"err StartHeightDoesNotExist {start} {tip}"
+      else match optNat b with
+        | some e =>
+          if e < start then s!"err StartHeightLargerThanEndHeight {start} {e}"
+          else if e > tip then s!"err EndHeightDoesNotExist {e} {tip}"
+          else
+            let hi := min e (start + 99)
+            s!"ok {hi} [{joinWith "," ((full.drop start).take (hi - start + 1))}]"
+        | none =>
+          let hi := min tip (start + 99)
+          s!"ok {hi} [{joinWith "," ((full.drop start).take (hi - start + 1))}]"
+    (d, showHeaders (s.getBlockHeaders Btc.Gen.maxBlockHeadersPerResponse a.toNat! (optNat b)) ++ " ## " ++ spec)
   | ["q", "fees"], some s =>
     if (s.guard (envOf d) s.network true).isSome then (d, "trap") else
     match s.feePercentiles Btc.Gen.numTransactions with
